@@ -79,7 +79,9 @@ type ModelResult struct {
 	// AltErr: other error classes the run may report instead of Err (several failures in
 	// one superstep: which one is reported is not fixed)
 	AltErr []string
-	Execs  []Exec
+	// ErrPath: for the step-limit error, the path of the (nested) graph that hit its limit
+	ErrPath string
+	Execs   []Exec
 	Steps int
 	// StateN is the expected final value of the state counter per stateful graph path
 	// ("" for the top level): the number of handler and ProcessState invocations.
@@ -286,6 +288,9 @@ func (mr *modelRun) runPregel(p *Plan, path, statePath string, in M) (M, string)
 			return v, ErrNone
 		}
 		if step >= max {
+			if mr.res.ErrPath == "" {
+				mr.res.ErrPath = path
+			}
 			return nil, ErrMaxSteps
 		}
 		if len(chans) == 0 {
